@@ -93,8 +93,8 @@ namespace
     Elem fresh_elem() { return Elem(T(), false); }                 // default construction / resize(s): missing
     Elem elem_of(T a, T /*b*/, bool f) { return Elem(a, f); }
     // whole-value writes into a proxy
-    const char* const write_forms[] = {"assign_optional", "assign_missing", "assign_scalar", "value_ref", "flag_ref", "own_value_other_flag", "own_value_other_flag_lvalue"};
-    constexpr unsigned n_write_forms = 7;
+    const char* const write_forms[] = {"assign_optional", "assign_missing", "assign_scalar", "value_ref", "flag_ref", "own_value_other_flag", "own_value_other_flag_lvalue", "swap_two_proxies_of_the_element"};
+    constexpr unsigned n_write_forms = 8;
     template <class R> void write_ref(R&& r, unsigned form, T a, T /*b*/, bool f, Elem& m)
     {
         switch (form)
@@ -106,6 +106,8 @@ namespace
         // "keep the value, change the flag": the assigned optional's value closure designates the element's own value
         case 5: r = xtl::optional(r.value(), f); m.second = f; break;
         case 6: { auto o = xtl::optional(r.value(), f); r = o; m.second = f; } break;
+        // two proxies onto the same element exchanged: the element keeps its value and its flag
+        case 7: { auto q = r; q.swap(r); } break;
         default: r.has_value() = f; m.second = f; break;
         }
     }
